@@ -1146,6 +1146,7 @@ func main() {
 	rep.Assume("src/spice has no concurrency primitives, so the instrumented copy built by bin/check is textually the repository's code; every witness is re-executed on the un-instrumented package by a plain go test during triage")
 	rep.Assume("Drain is judged by equality with Transfer on the same operands (every product and chain case), Transfer by the oracle")
 	rep.Assume("the ledger-admission part of C05 (CreateLeaf/AddLeaf/LoadDag refusing non-canonical amounts) is not part of this run")
+	c05Predicates(rep)
 	c05LedgerPart(rep)
 	os.Exit(rep.Finish())
 }
